@@ -237,6 +237,18 @@ def run(chk: Check):
                 if tag in ("max", "min", "alt") and i % 4:
                     continue
                 check_preset_relation(chk, name, cls, ntaps, is_fir, sig, bl, tag)
+    # the int16 limits as carried state: a block boundary right behind a sample of exactly -32768 / 32767 (every two-block
+    # split and single-sample blocks of signals in which every third sample sits on a limit)
+    for name, cls, ntaps, is_fir in presets():
+        for rep in range(3 if thorough else 1):
+            n = 36
+            sig = np.asarray([(-32768 if j % 3 == 0 else 32767 if j % 7 == 0 else rng.randint(-3000, 3000)) for j in range(n)], dtype=np.int16)
+            for k in range(1, n):
+                if is_fir and (k < ntaps - 1 or n - k < ntaps - 1) and not thorough:
+                    continue                      # D13 territory (a block shorter than the FIR history) adds nothing here
+                check_preset_relation(chk, name, cls, ntaps, is_fir, sig, [k, n - k], f"limits split {k}")
+            if not is_fir:
+                check_preset_relation(chk, name, cls, ntaps, is_fir, sig, [1] * n, "limits single-sample blocks")
     # long blocks: one block just past a power of two (an implementation that works through a block in chunks meets a short
     # last chunk), against the same signal cut in two and in 1000-sample blocks
     for name, cls, ntaps, is_fir in presets():
